@@ -1016,6 +1016,13 @@ func c04Replay(raw json.RawMessage) (bool, string) {
 		return false, err.Error()
 	}
 	switch c.What {
+	case "many":
+		api := "Map"
+		if c.Fast {
+			api = "Set"
+		}
+		b := c04Many(c.Target, api)
+		return b != "", b
 	case "variadic":
 		b := c04Variadic(c.Target == 1, c.Fast)
 		return b != "", b
